@@ -28,6 +28,22 @@ CHECKS = {
          "Every successful run made by the random drivers of all modelled operator families and of a sample (thorough: all) of the ~1260 upstream corpus scripts is recorded as one event holding the structures semantic_analysis() predicts and the structures, column order and typed values run() returns; TLC validates each event against VTLStruct_Trace: same result names, components (names, roles, types, nullability, order), column order, every value of its component's type, identifiers non-null and unique, non-nullable components never null, at most one datapoint without identifiers. The machine invariant Closure (everything the abstract statement machine stores is WellFormed) is checked by TLC in the generation models of C01-C05.",
          "For scripts outside the modelled subset the oracle of the structure is semantic_analysis() itself, exactly as the property states. Temporal values are recognised by the documented output patterns; at most 400 datapoints per result are validated.",
          "TLC trace validation of recorded (predicted structure, returned result) events + machine invariant Closure"),
+ 'C14': ('model_checking',
+         "VTLApi models one API call as a state machine over what the caller observes (arguments, outcome, returned results, files); TLC checks FilesFaithful on it (selected results delivered to files or memory, scalar file written once). Each generated script (persistent and non-persistent dataset statements of all modelled operator families, scalar statements incl. null / date / period scalars) and each corpus script is run with an output folder in csv and parquet under both return_only_persistent settings and again in memory; each pair is one event validated by TLC (VTLApi_Trace): file set = one file per returned dataset (+ _scalars.csv), file columns and rows = the in-memory result, returned datasets carry no data, scalar file = returned scalars.",
+         "Numbers in files are compared at 12 significant digits (text round trip of doubles); file rows are typed through the declared structure. The TLA+ content is a relation over recorded projections; the strength is the breadth of generated calls.",
+         "TLC model checking of the API-call machine + trace validation of (output folder, in-memory) run pairs"),
+ 'C22': ('model_checking',
+         "VTLApi obligation ArgsUnchanged (no step of a call changes the caller's arguments) is checked by TLC on the call machine; every argument of every observed call is projected deeply (dict key order, list items, DataFrame columns / dtypes / index / values, paths, pysdmx datasets) before and after the call and TLC (VTLApi_Trace) compares per argument and names the one that changed. Calls: hand-shaped valid and invalid tables (missing / extra / BOM / reordered columns, duplicates, null identifiers, bad values, empty strings, temporal types, all period output formats) x succeeding and failing scripts for run / validate_dataset / semantic_analysis, value domains, external routines, scalar values, output folders, prettify, generate_sdmx, run_sdmx with pysdmx datasets, random units in every input form, corpus scripts.",
+         "DataFrames are projected on their first 2000 rows; pysdmx objects by repr(). URL datapoints cannot be exercised offline.",
+         "TLC trace validation of before/after argument projections of every API call"),
+ 'C26': ('model_checking',
+         "Static half (exhaustive): every construction site of a coded VTL exception in src/vtlengine is extracted as a fact (code literal, keyword names, **kwargs) and TLC decides, against the catalogue read from messages.py at check time, code in catalogue and placeholders subset of keywords. Dynamic half: every error raised by the shaped calls, the runtime-failure generators, parser errors and corpus scripts is one event validated by TLC (code catalogued, message fully rendered, constructor did not itself fail).",
+         "Sites whose code is computed at run time are listed as not decided; sites passing **kwargs are accepted statically. The TLA+ contribution is a set inclusion over extracted facts.",
+         "static raise-site facts + recorded errors validated by TLC against the message catalogue"),
+ 'C32': ('model_checking',
+         "VTLApi obligation OutcomeAlphabet: a call ends ok or with a catalogued VTL error; a raw exception has no enabling action, so its event is rejected by VTLApi_Trace. Drivers: a runtime-hostile generator (about 230 script templates: numeric domain errors, overflows, zero divisors at dataset / component / scalar level, casts of unparsable text, regex operators with malformed patterns, substr / instr edge arguments, every time operator over periods of every indicator incl. W53 / D366 / year 9999, date arithmetic overflow, duration conversions, conditionals) x hostile value pools x the four time-period output formats x memory / csv / parquet delivery, plus random units and corpus scripts. Only calls whose script passes semantic_analysis() are judged (the property's antecedent).",
+         "Inputs are generated valid for their declared structure. Raw errors raised inside semantic analysis are counted and listed in the evidence notes but not judged (outside the antecedent).",
+         "TLC trace validation of call outcomes against the outcome alphabet of the API-call machine"),
  'C15': ('model_checking',
          "The specification has no notion of threads, storage or memory: one abstract step must explain EVERY observation. Random units of all modelled families are observed under the configuration grid VTL_THREADS x VTL_USE_IN_MEMORY_DB x VTL_MEMORY_LIMIT (quick: 3 configurations, thorough: 16, repeated) and each observation is validated by TLC (VTLOperators_Trace); units replicated into blocks up to 10^5 (thorough 10^6) datapoints must give equal blocks and one block is validated by TLC; corpus scripts are run under every configuration and the outcomes compared as sets (VTLOrder_Trace group agreement).",
          "Runs that do not complete under VTL_MEMORY_LIMIT=64MB are excluded as the property allows. Block replication covers operators acting within a block. TLC sees the per-block projection, not the million rows.",
